@@ -33,6 +33,7 @@ static std::atomic<unsigned> g_pointno{0};
 static std::atomic<int> g_accepts{0};
 static std::atomic<int> g_jit_us{300};
 static std::atomic<int> g_spin_ms{0};
+static std::atomic<int> g_align{0}; // release the threads that are about to update the handler count at common instants
 
 extern "C" void asl_verif_point(int kind, const volatile void* obj)
 {
@@ -41,6 +42,15 @@ extern "C" void asl_verif_point(int kind, const volatile void* obj)
 	uint64_t js = g_jitter.load(std::memory_order_relaxed);
 	if (!js || kind < 10)
 		return;
+	if ((kind == 20 || kind == 21) && g_align.load(std::memory_order_relaxed)) {
+		// the accept loop (about to count a connection) and the handlers (about to un-count theirs) wait for the next 64 us boundary of
+		// the monotonic clock, so that updates of the count by different threads start at the same instant (bounded: < 64 us)
+		timespec ts;
+		do
+			clock_gettime(CLOCK_MONOTONIC, &ts);
+		while ((ts.tv_nsec & 0xffff) > 1500);
+		return;
+	}
 	int spin_ms = g_spin_ms.load(std::memory_order_relaxed);
 	if (spin_ms > 0 && (kind == 22 || kind == 12 || kind == 11)) {
 		// busy delay (not a cancellation point, unlike usleep) after the accept loop cleared its running flag / before a
@@ -246,6 +256,8 @@ struct Hist {
 	bool start_nonblocking = true;
 	int spin_ms = 0;            // busy delay injected at the loop-stop / finished-flag points
 	bool destroy_at_once = false; // destroy the server as soon as stop(true) has returned
+	bool no_probe = false;          // no probe connections: with no clients either, stop(true) follows start() at once
+	bool align_counts = false;      // see g_align
 	bool stdin_closed = false;      // the probe connections are accepted while descriptor 0 is free
 	bool failed_bind_first = false; // a bind() to a port somebody else is listening on precedes the real binds
 	int fdorder = 0;              // two endpoints: bit0 the endpoint bound second gets the LOWER descriptor, bit1 the Unix path is bound first
@@ -304,6 +316,7 @@ static void run_history(const Hist& h)
 		vf::stats().cls(srv->fd(1) < srv->fd(0) ? "two_endpoints.second_has_lower_descriptor" : "two_endpoints.ascending_descriptors");
 	g_jitter = h.jseed;
 	g_spin_ms = h.spin_ms;
+	g_align = h.align_counts ? 1 : 0;
 	// start(true) runs the accept loop in the server's own thread; start(false) runs it in the calling thread (here: a harness
 	// thread) and returns when the loop has ended
 	auto loop_returned_p = std::make_shared<std::atomic<bool>>(false); // (shared: the thread is detached if the loop never ends)
@@ -380,7 +393,7 @@ static void run_history(const Hist& h)
 	ClientResult probe[2];
 	bool probed[2] = {false, false};
 	for (int ep = 0; ep < 2; ep++) {
-		if ((ep == 0 && !tcp) || (ep == 1 && !ux))
+		if ((ep == 0 && !tcp) || (ep == 1 && !ux) || h.no_probe)
 			continue;
 		probed[ep] = true;
 		probe[ep].token = vf::str("probe", ep, "-", h.jseed % 100000);
@@ -455,7 +468,17 @@ static void run_history(const Hist& h)
 	if (hung)
 		err = "stop(true) did not return within 60 s";
 	// watch for late serve() entries, then destroy the server and watch again (ASan catches a thread touching it)
-	if (!h.destroy_at_once)
+	bool running_later = false;
+	if (!h.destroy_at_once && !hung) {
+		// "from then on running() is false": sampled for a while after stop(true) returned
+		double tw = vf::now(), window = (h.poke ? 0.030 : 0.150) + 1e-3 * h.spin_ms;
+		while (vf::now() - tw < window) {
+			if (srv->running())
+				running_later = true;
+			usleep(500);
+		}
+	}
+	else if (!h.destroy_at_once)
 		usleep(h.poke ? 30000 : 150000);
 	bool loop_stuck = false;
 	if (loopth.joinable()) {
@@ -514,6 +537,7 @@ static void run_history(const Hist& h)
 		t.join();
 	g_jitter = 0;
 	g_spin_ms = 0;
+	g_align = 0;
 	unlink(path.c_str());
 	if (squatter >= 0)
 		close(squatter);
@@ -582,6 +606,8 @@ static void run_history(const Hist& h)
 			err = vf::str("when stop(true) returned ", entries_at_stop - exits_at_stop, " serve() calls were still in flight (entries ", entries_at_stop, ", exits ", exits_at_stop, ")");
 		else if (running_after)
 			err = "running() is true right after stop(true) returned";
+		else if (running_later)
+			err = "running() became true again after stop(true) had returned";
 		else if (rec->late_entries)
 			err = vf::str(rec->late_entries, " serve() calls started after stop(true) had returned");
 		else if (accepts_at_stop != entries_at_stop)
@@ -596,6 +622,10 @@ static void run_history(const Hist& h)
 			inflight = true;
 	vf::stats().cls(h.sequential ? "mode.sequential" : "mode.concurrent");
 	vf::stats().cls(h.start_nonblocking ? "start.own_thread" : "start.blocking_in_caller_thread");
+	if (h.no_probe && h.n1 == 0)
+		vf::stats().cls("stop_right_after_start(no_probe,no_phase1_clients)");
+	if (h.align_counts)
+		vf::stats().cls("count_updates_aligned");
 	vf::stats().cls(ux && tcp ? "bind.both" : ux ? "bind.unix" : "bind.tcp");
 	if (conc >= 2)
 		vf::stats().cls("concurrent_handlers>=2");
@@ -694,6 +724,8 @@ static Hist parse_hist(const vf::Op& o)
 	h.start_nonblocking = !(o.i(13, 0) & 1);
 	h.failed_bind_first = (o.i(14, 0) & 1) != 0;
 	h.stdin_closed = (o.i(15, 0) & 1) != 0;
+	h.no_probe = (o.i(16, 0) & 1) != 0;
+	h.align_counts = (o.i(17, 0) & 1) != 0;
 	return h;
 }
 
@@ -727,9 +759,29 @@ void vf_search(const vf::Args& a)
 		                  auto& x = std::get<0>(t);
 		                  auto& y = std::get<1>(t);
 		                  vf::Case c;
-		                  c.add(vf::Op("hist", {std::get<0>(x), std::get<1>(x), std::get<2>(x), std::get<3>(x), std::get<0>(y), std::get<1>(y), std::get<2>(y), std::get<3>(y), std::get<4>(y), std::get<5>(y), std::get<2>(t).first, std::get<2>(t).first ? 1 : std::get<2>(t).second, (std::get<5>(y) / 7) % 4, (std::get<5>(y) / 29) % 4 == 0 ? 1 : 0, (std::get<5>(y) / 113) % 3 == 0 ? 1 : 0, (std::get<5>(y) / 337) % 4 == 0 ? 1 : 0}));
+		                  c.add(vf::Op("hist", {std::get<0>(x), std::get<1>(x), std::get<2>(x), std::get<3>(x), std::get<0>(y), std::get<1>(y), std::get<2>(y), std::get<3>(y), std::get<4>(y), std::get<5>(y), std::get<2>(t).first, std::get<2>(t).first ? 1 : std::get<2>(t).second, (std::get<5>(y) / 7) % 4, (std::get<5>(y) / 29) % 4 == 0 ? 1 : 0, (std::get<5>(y) / 113) % 3 == 0 ? 1 : 0, (std::get<5>(y) / 337) % 4 == 0 ? 1 : 0, (std::get<5>(y) / 577) % 3 == 0 ? 1 : 0, (std::get<5>(y) / 1013) % 2}));
 		                  return c;
 	                  });
+	{
+		// stop(true) right after start(): no client, no probe connection, no delay - the accept thread may not even have begun
+		// (fixed shapes, run by every worker; jitter seeds differ)
+		//            kind seq n1 n2 pat early stopdelay poke servedelay jseed spin destroy fdorder blocking failedbind stdin noprobe align
+		const long long shapes[][18] = {{1, 0, 0, 0, 0, 0, 0, 1, 0, 0, 0, 0, 0, 0, 0, 0, 1, 0},
+		                                {1, 0, 0, 0, 0, 0, 0, 1, 0, 0, 0, 1, 0, 0, 0, 0, 1, 0},
+		                                {2, 0, 0, 0, 0, 0, 0, 1, 0, 0, 120, 1, 0, 0, 0, 0, 1, 0},
+		                                {1, 1, 0, 0, 0, 0, 0, 0, 0, 0, 0, 0, 0, 0, 0, 0, 1, 0}};
+		for (auto& sh : shapes) {
+			vf::Case c;
+			std::vector<long long> v(sh, sh + 18);
+			v[9] = 1 + (long long)((a.seed * 131 + a.worker * 17 + (&sh - shapes)) % 999983);
+			vf::Op hop("hist");
+			hop.a = v;
+			c.add(hop);
+			if (!vf::runner().run("history", c))
+				return;
+			vf::stats().nt(vf::fnv(vf::serialize(c)));
+		}
+	}
 	vf::check_cases("history", a.n(12, 200), 100, g, [](const vf::Case& c) {
 		auto& o = c.ops[0];
 		if (o.i(3) > 0 || (o.i(2) >= 2 && !(o.i(1) & 1)))
@@ -744,6 +796,6 @@ void vf_search(const vf::Args& a)
 			vf::stats().cls("spin_delay_at_loop_stop_and_thread_entry+destroy_at_once");
 		else if (o.i(11) & 1)
 			vf::stats().cls("destroy_at_once");
-		vf::stats().sample("hist kind seq n_before n_inflight pattern early% stop_delay_us poke serve_delay_us jitter_seed spin_ms destroy_at_once fd_order blocking_start failed_bind_first stdin_closed: " + vf::serialize(c), 4);
+		vf::stats().sample("hist kind seq n_before n_inflight pattern early% stop_delay_us poke serve_delay_us jitter_seed spin_ms destroy_at_once fd_order blocking_start failed_bind_first stdin_closed no_probe align_counts: " + vf::serialize(c), 4);
 	});
 }
